@@ -54,6 +54,8 @@ def strategy_impl(draw, tier):
         "fill": {a: draw(st.integers(-5, 5).map(float)) for a in AXES},
         "kind": kind, "extra": extra, "order": draw(gen.permutations_of(labels)), "arrays": arrays,
         "bsrc": draw(st.sampled_from(["grid", "call"])),
+        "face_order": list(draw(st.permutations(list(range(nf))))),
+        "reverse_axes": draw(st.booleans()),
     }
 
 
@@ -125,7 +127,8 @@ def make_grid(case):
     if case["bsrc"] == "grid":
         kw = {"boundary": dict(case["bnd"]), "fill_value": dict(case["fill"])}
     return Grid(ds, coords={"X": {"center": "xc", "left": "xl"}, "Y": {"center": "yc", "left": "yl"}},
-                face_connections=gen.table_to_xgcm(case["table"]), autoparse_metadata=False, periodic=False, **kw)
+                face_connections=gen.table_to_xgcm(case["table"], face_order=case.get("face_order"), reverse_axes=case.get("reverse_axes", False)),
+                autoparse_metadata=False, periodic=False, **kw)
 
 
 def dims_for(case, ydim, xdim):
